@@ -24,7 +24,7 @@ P = "ppoprf::ppoprf::"
 def challenge_parts(ctx, root):
     eng, ret, st, fr = ctx.root(root)
     # in the function itself or in a helper it calls (frames below the root)
-    hs = [e for e in Q.calls(eng, "ProofDLEQ::hash_to_scalar") if e["frame"] == fr.key or e["frame"].startswith(fr.key + "/")]
+    hs = [e for e in Q.calls(eng, "ProofDLEQ::hash_to_scalar") if e["home"] == fr.key or e["frame"].startswith(fr.key + "/")]
     return eng, ret, fr, hs
 
 
@@ -144,7 +144,7 @@ def run(ctx):
     ctx.add("C13.R2", root + "#composite-transcript", okc,
             "each composite scalar must hash (seed from public value, index i, c[i], d[i]); found %s" % sh, at, sample=sh)
     # every batch element contributes to the composites unconditionally (no element is skipped depending on its value)
-    adds = [e for e in Q.calls(eng, None) if e.get("model") == "m_alg_add" and e["frame"] == fr.key]
+    adds = [e for e in Q.calls(eng, None) if e.get("model") == "m_alg_add" and e["home"] == fr.key]
     okall = len(adds) >= 2
     badc = []
     for e in adds:
@@ -221,7 +221,7 @@ def run(ctx):
             ctx.fn(P + "ServerPublicKey::load_from_bincode").loc)
     for root, mx in sorted(sizes.items()):
         eng, ret, st, fr = ctx.root(root)
-        de = [e for e in Q.calls(eng, "bincode::deserialize") if e["frame"] == fr.key]
+        de = [e for e in Q.calls(eng, "bincode::deserialize") if e["home"] == fr.key]
         ok5 = False
         det = "no deserialize call"
         if len(de) == 1:
